@@ -36,7 +36,7 @@ def _intarr(rng, n, shape=None, neg=True):
 def gen_index(rng, shape):
     """Returns (index, class_name)."""
     r = len(shape)
-    kinds = ["int", "slice", "ellipsis", "newaxis", "intarr", "intarr_rep", "boolmask", "list", "mixed_adv_slice", "two_adv", "adv_bcast", "tuple_ints", "bool_lead", "empty_list", "neg_step", "scalar_arr", "adv_newaxis", "bool_and_slice", "ellipsis_mid", "bool_list", "bool_list_in_tuple"]
+    kinds = ["int", "slice", "ellipsis", "newaxis", "intarr", "intarr_rep", "boolmask", "list", "mixed_adv_slice", "two_adv", "adv_bcast", "tuple_ints", "bool_lead", "empty_list", "neg_step", "scalar_arr", "adv_newaxis", "bool_and_slice", "ellipsis_mid", "bool_list", "bool_list_in_tuple", "npbool_list", "nested_bool_list", "one_true_list"]
     if r == 0:
         k = rng.choice(["ellipsis", "newaxis", "empty_tuple", "bool_scalar"])
         if k == "ellipsis":
@@ -80,6 +80,19 @@ def gen_index(rng, shape):
         if not any(m):
             m[0] = True
         return m, k
+    if k == "npbool_list":
+        m = list(rng.uniform(size=(n0,)) > 0.4)  # elements are numpy.bool_
+        if not any(m):
+            m[0] = onp.True_
+        return m, k
+    if k == "one_true_list":
+        m = [False] * n0
+        m[int(rng.integers(0, n0))] = True
+        return (m if rng.uniform() < 0.5 else [onp.bool_(t) for t in m]), k
+    if k == "nested_bool_list":
+        if r >= 2:
+            return [[bool(t) for t in row] for row in (rng.uniform(size=shape[:2]) > 0.5)], k
+        return [bool(t) for t in (rng.uniform(size=(n0,)) > 0.5)] or [True], k
     if k == "bool_list_in_tuple":
         m = [bool(t) for t in (rng.uniform(size=(n0,)) > 0.4)]
         return (m,) + ((slice(None),) if r >= 2 else ()), k
